@@ -4,7 +4,18 @@ import TTV.Spec.C10
 over observed traces: the status events seen between the two converters (`mid`) and the calls received by the
 final extended result (`ext`).  The expectations are computed from the history alone, by the `TestResult` reading
 of `tags()` / `time()` (run-level changes persist, changes inside a test end with it; the last supplied time is in
-force); the call log of the final result is read back with `Spec.C10.interp`. -/
+force); the call log of the final result is read back with `Spec.C10.interp`.
+
+**Interpretations** (taken from the code, stated plainly because an independent audit - audit/C09 - read the prose the
+other way; the code is left as it is):
+* "every NON-EMPTY detail": a detail without chunks or with only empty chunks travels as one empty `eof` chunk and is
+  dropped by the consumer side (an attachment exists from its first non-empty chunk, see `Spec.C10`); this includes the
+  skip reason: `addSkip(test, "")` arrives as a skip without `reason` detail.
+* content types are compared as the tokens the history uses (lower-case type / subtype / parameter names, no RFC 2047
+  encoded words in values): what the render / parse round trip does to other spellings (case folding, decoding of
+  encoded words) is C16's and recorded there.
+* `tags()` / `time()` BEFORE an explicit `startTestRun()` belong to no run (it resets both); before the first `startTest`
+  of a run that this `startTest` starts they belong to that run (repaired, see KNOWN_FINDINGS). -/
 namespace TTV.Spec.C09
 open TTV.Stream TTV.Stream.Convert
 
